@@ -178,13 +178,25 @@ def stage(repo=None, verbose=False):
         res = list(ex.map(get, list(EXTS)))
     for name, so, cached in res:
         pkg = EXTS[name][0]
-        shutil.copy2(so, os.path.join(dst, pkg, os.path.basename(so)))
-    # keep the cache small: drop all but the 12 newest entries
+        try:
+            shutil.copy2(so, os.path.join(dst, pkg, os.path.basename(so)))
+            os.utime(os.path.dirname(so))         # mark as recently used
+        except OSError:
+            # the cache entry vanished (pruned by a concurrent run): build
+            # straight into a private directory
+            tmp = tempfile.mkdtemp(prefix="nocache_" + name + "_",
+                                   dir=stage_dir)
+            so2 = _build_one(name, dst, tmp)
+            shutil.copy2(so2, os.path.join(dst, pkg, os.path.basename(so2)))
+    # keep the cache small: drop entries beyond the 60 most recently used
+    # that are older than an hour
     try:
+        now = time.time()
         ents = sorted((os.path.getmtime(os.path.join(cache, e)), e)
                       for e in os.listdir(cache))
-        for _, e in ents[:-12]:
-            shutil.rmtree(os.path.join(cache, e), ignore_errors=True)
+        for mt, e in ents[:-60]:
+            if now - mt > 3600:
+                shutil.rmtree(os.path.join(cache, e), ignore_errors=True)
     except OSError:
         pass
     if verbose:
